@@ -645,9 +645,10 @@ class Fingerprint(object):
                         self.index_to_folded_index_dict[index], set()
                     ).update(id_set)
 
-            if linked:
-                fp.unfolded_fingerprint = self
-                self.folded_fingerprint[(bits, method)] = fp
+            if not linked:
+                return fp
+            fp.unfolded_fingerprint = self
+            self.folded_fingerprint[(bits, method)] = fp
 
         assert isinstance(
             self.folded_fingerprint[(bits, method)], self.__class__
